@@ -2,6 +2,7 @@ package fw
 
 import (
 	"fmt"
+	"regexp"
 	"go/constant"
 	"go/token"
 	"go/types"
@@ -889,4 +890,29 @@ func (c Cmp) Implies(q Cmp) bool {
 		}
 	}
 	return false
+}
+
+var verRe = regexp.MustCompile(`#after-store[0-9,]+`)
+
+// StripVersions removes the store-version suffixes of field atoms (used where a rule compares
+// values inside one loop iteration, before the iteration's own stores).
+func StripVersions(p *Poly) *Poly {
+	q := NewPoly()
+	for k, v := range p.T {
+		nk := verRe.ReplaceAllString(k, "")
+		if nk != "" {
+			parts := splitMono(nk)
+			sort.Strings(parts)
+			nk = strings.Join(parts, "*")
+		}
+		if x, ok := q.T[nk]; ok {
+			x.Add(x, v)
+			if x.Sign() == 0 {
+				delete(q.T, nk)
+			}
+		} else {
+			q.T[nk] = new(big.Int).Set(v)
+		}
+	}
+	return q
 }
